@@ -62,6 +62,11 @@ GuardCases == { Case("crl-guards", [Base EXCEPT !.thisUpdate = o[1], !.nextUpdat
 Reasons == {NoReason} \cup {Reason(n) : n \in {0, 1, 2, 3, 4, 5, 6, 8, 9, 10}}
 Invs == {NoInv, Inv(T(2024, 3, 1, 0, 0, 0, 0, 0)), Inv(T(1949, 12, 31, 23, 59, 59, 0, 0)), Inv(T(2050, 1, 1, 0, 0, 0, 0, 0)),
          Inv(T(2050, 1, 1, 0, 30, 0, 999, 3600))}
+(* the same serial number listed twice (put on hold, revoked later): every entry the caller gave is written *)
+RepeatedSerialCases == { Case("crl-entry", [Base EXCEPT !.revoked = <<Entry(<<9>>, T(2024, 4, 1, 0, 0, 0, 0, 0), Reason(6), NoInv),
+                                                                    Entry(<<7>>, T(2024, 4, 2, 0, 0, 0, 0, 0), NoReason, NoInv),
+                                                                    Entry(<<9>>, T(2024, 4, 3, 0, 0, 0, 0, 0), Reason(1), Inv(T(2024, 3, 1, 0, 0, 0, 0, 0)))>>],
+                              <<>>, "ed25519", Kid("sha256")) }
 EntryCases == { Case("crl-entry", [Base EXCEPT !.revoked = <<Entry(<<9>>, T(2024, 4, 1, 0, 0, 0, 0, 0), r, i)>> \o rest], <<>>, "ed25519", Kid("sha256")) :
                   r \in Reasons, i \in Invs, rest \in {<<>>, <<E1, E2>>} }
 
@@ -103,7 +108,7 @@ SetToSortedSeq(S) == IF S = {} THEN <<>> ELSE LET m == SetMax(S) IN SetToSortedS
 (* every issuer key-usage set: the cRLSign guard must fire for exactly those that are non-empty and lack bit 6 *)
 IssuerKuCases == { Case("crl-issuer-ku", Base, SetToSortedSeq(S), "ed25519", Kid("sha256")) : S \in SUBSET (0..8) }
 
-Cases == IssuerKuCases \cup GuardCases \cup EntryCases \cup SerialCases \cup IdpCases \cup KidCases \cup AlgCases \cup TimeCasesOk
+Cases == IssuerKuCases \cup GuardCases \cup EntryCases \cup RepeatedSerialCases \cup SerialCases \cup IdpCases \cup KidCases \cup AlgCases \cup TimeCasesOk
 
 Args(k) == [params |-> k.params, issuer |-> [dn |-> k.issuerDn, ku |-> k.issuerKu, subjectRaw |-> ""],
             signerKey |-> [h |-> "kI", alg |-> k.alg], signerFails |-> FALSE]
